@@ -37,7 +37,10 @@ pub open spec fn validators_ok(st: St) -> bool {
 pub open spec fn shares_have_staker(st: St) -> bool {
     forall|d: Addr, v: Seq<char>| #[trigger] has_shares(st, d, v) ==> has_staker(st, v, d)
 }
-pub open spec fn swf(st: St) -> bool { stakers_exist(st) && shares_have_staker(st) && validators_ok(st) }
+// I3 (add_validator writes both records, nothing removes them): a validator with an info record has a validator record
+pub open spec fn vinfo_has_vobj_at(st: St, v: Seq<char>) -> bool { get_vinfo(st, v) matches Ok(Some(_)) ==> get_vobj(st, v) matches Ok(Some(_)) }
+pub open spec fn vinfo_has_vobj(st: St) -> bool { forall|v: Seq<char>| #[trigger] vinfo_has_vobj_at(st, v) }
+pub open spec fn swf(st: St) -> bool { stakers_exist(st) && shares_have_staker(st) && validators_ok(st) && vinfo_has_vobj(st) }
 
 // ---- keys of different containers / different entries never collide
 pub proof fn lemma_ns_facts()
@@ -245,6 +248,10 @@ pub proof fn lemma_rewards_updated_swf(st0: St, st1: St, v: Seq<char>, now: Time
         assert(get_vobj(st1, v2) == get_vobj(st0, v2));
         assert(vobj_ok_at(st0, v2));
     }
+    assert forall|v2: Seq<char>| #[trigger] vinfo_has_vobj_at(st1, v2) by {
+        lemma_frame_other_validator(st0, st1, v, i0.stakers@, v2, arbitrary());
+        assert(vinfo_has_vobj_at(st0, v2));
+    }
 }
 // a change confined to validator v's info record and the stake entries of its stakers leaves every typed entry of
 // other validators, the validator records, the queue and the staking parameters as they were
@@ -318,7 +325,6 @@ pub open spec fn stake_changed(sm: St, s1: St, d: Addr, v: Seq<char>, amount: na
     })
     &&& frame2(sm, s1, d, v)
 }
-pub open spec fn same_at(a: St, b: St, k: Seq<u8>) -> bool { a.contains_key(k) == b.contains_key(k) && a[k] == b[k] }
 // a change confined to k_vinfo(v) and k_stake(d, v)
 pub open spec fn frame2(sm: St, s1: St, d: Addr, v: Seq<char>) -> bool {
     forall|k: Seq<u8>| k != k_vinfo(v) && k != k_stake(d, v) ==> #[trigger] same_at(s1, sm, k)
@@ -373,6 +379,10 @@ pub proof fn lemma_frame2_swf(sm: St, s1: St, d: Addr, v: Seq<char>)
     assert forall|v2: Seq<char>| #[trigger] vobj_ok_at(s1, v2) by {
         lemma_frame2(sm, s1, d, v, d, v2);
         assert(vobj_ok_at(sm, v2));
+    }
+    assert forall|v2: Seq<char>| #[trigger] vinfo_has_vobj_at(s1, v2) by {
+        lemma_frame2(sm, s1, d, v, d, v2);
+        assert(vinfo_has_vobj_at(sm, v2));
     }
 }
 // update_rewards never changes a stake, nor whether a delegation exists
@@ -548,6 +558,10 @@ pub proof fn lemma_slash_done(sm: St, st: St, s1: St, seq: Seq<Addr>, v: Seq<cha
         lemma_slash_frame_other(sm, s1, v, im.stakers@, v2, arbitrary());
         assert(vobj_ok_at(sm, v2));
     }
+    assert forall|v2: Seq<char>| #[trigger] vinfo_has_vobj_at(s1, v2) by {
+        lemma_slash_frame_other(sm, s1, v, im.stakers@, v2, arbitrary());
+        assert(vinfo_has_vobj_at(sm, v2));
+    }
 }
 pub proof fn lemma_slash_frame_other(sm: St, s1: St, v: Seq<char>, stakers: Set<Addr>, v2: Seq<char>, d: Addr)
     requires slash_frame(sm, s1, v, stakers),
@@ -652,3 +666,5 @@ pub proof fn lemma_shown_is_paid(st0: St, sm: St, d: Addr, v: Seq<char>, now: Ti
         assert(credited(st0, sm, d, v, i0.stake.u as nat, nr));
     }
 }
+
+//@ canary staking_axioms lemma_ns_facts(); axiom_addr_key_laws(); let a = Addr { s: str_of("alice"@) }; let b = Addr { s: str_of("bob"@) }; axiom_addr_bytes(a); axiom_addr_bytes(b); axiom_addr_len(a); axiom_str_bytes_inj(a.s@, b.s@); axiom_addr_ext(a, b); lemma_keys_disjoint(a, "v"@, "w"@); axiom_str_bytes_ascii("v"@); axiom_cw_roundtrip(Shares { stake: Decimal { atomics: 1 }, rewards: Decimal { atomics: 2 } }); lemma_reward_zero_dt(5, 7, 9); lemma_gross_bound(1000, 100_000_000_000_000_000, 1_000_000_000); lemma_net_bound(1000, 100_000_000_000_000_000, 0, 1_000_000_000);
